@@ -4,7 +4,7 @@ from .loader import Place, op_place, const_int, ty_int_range, span_str, to_signe
 from .absint import *
 from . import absint
 
-PROMOTED = {}      # ("PR", body key) -> value SV of the promoted constant
+PROMOTED = absint.PROMOTED_VALUES      # ("PR", body key) -> value SV of the promoted constant
 
 
 class Obligation:
@@ -489,7 +489,22 @@ class Interp:
         v = self.eval_rvalue(S, rv, place)
         loc = self.resolve(S, place)
         if any(e[0] in ("ix", "?") for e in loc[1]):
-            return   # weak update of a summarised element
+            # weak update of a summarised element: remember what was written into the container
+            cut = next(i for i, e in enumerate(loc[1]) if e[0] in ("ix", "?"))
+            base = (loc[0], loc[1][:cut])
+            old = S.read(base)
+            if isinstance(old, tuple) and old[0] == "model" and old[1] == "array-with":
+                items = old[3] if v in old[3] or len(old[3]) >= 4 else old[3] + (v,)
+                new = ("model", "array-with", old[2], items)
+            else:
+                new = ("model", "array-with", old, (v,))
+            keep = [(k, x) for k, x in S.mem.items() if k[0] == base[0] and len(k[1]) > len(base[1]) and k[1][:len(base[1])] == base[1]]
+            ln = S.read((base[0], base[1] + (("len",),)))
+            S.write(base, new)
+            for k, x in keep:
+                S.mem[k] = x
+            S.mem[(base[0], base[1] + (("len",),))] = ln
+            return
         if isinstance(v, tuple) and v[0] in ("agg",) and sv_type(v) is None:
             set_ty(v, tykey(place.ty))
         S.write(loc, v)
@@ -500,6 +515,13 @@ class Interp:
             return self.eval_op(S, rv["a"])
         if k == "ref" or k == "rawptr":
             p = Place(rv["place"])
+            if p.proj == ["*"]:
+                # a pure reborrow &*p is the pointer p itself
+                pv = S.read((self.L(p.local), ()))
+                if isinstance(pv, tuple) and pv[0] != "ref":
+                    if sv_type(pv) is None and pv[0] not in ("agg", "upd", "vagg", "k"):
+                        set_ty(pv, tykey(self.body.locals[p.local]["t"]))
+                    return pv
             loc = self.resolve(S, p)
             return ("ref", loc)
         if k == "bin":
@@ -532,6 +554,8 @@ class Interp:
                         return K(to, v)
                 return ("cast", to, a)
             if ck.startswith("PtrToPtr") or "Unsize" in ck or ck.startswith("PointerCoercion") or ck.startswith("Transmute"):
+                if isinstance(a, tuple) and a[0] != "ref" and "Unsize" in ck and not is_const(a):
+                    a = ("ref", self.target(a))
                 if isinstance(a, tuple) and a[0] == "ref":
                     src_t = self.op_type(rv["a"])
                     t = src_t
@@ -1044,7 +1068,11 @@ def stable(sv, depth=0):
     if h == "ref":
         return "&%s" % stable_loc(sv[1], depth + 1)
     if h == "model":
-        return "%s(%s)" % (sv[1], ",".join(r(x) for x in sv[2:] if not (isinstance(x, tuple) and x and x[0] == "site")))
+        def rr(x):
+            if isinstance(x, tuple) and x and isinstance(x[0], tuple):
+                return "[" + ",".join(r(y) for y in x) + "]"
+            return r(x)
+        return "%s(%s)" % (sv[1], ",".join(rr(x) for x in sv[2:] if not (isinstance(x, tuple) and x and x[0] == "site")))
     return h
 
 
